@@ -86,7 +86,8 @@ func (mapVacuum *MapVacuum[K, V]) vacuum() {
 	deleteUntil := 0
 	now := mapVacuum.clock.Now()
 	mapVacuum.mapMutex.Lock()
-	for _, entry := range mapVacuum.entries {
+	// iterate the snapshot taken under entriesMutex: VacuumKey appends to entries concurrently
+	for _, entry := range mapVacuumEntries {
 		if entry.vacuumAt.Before(now) {
 			delete(mapVacuum.mapToVacuum, entry.keyToVacuum)
 			deleteUntil++
